@@ -132,3 +132,18 @@ func zeroHandle(typeName string) *Handle {
 // ZeroRun / ZeroClose are the Run / Close bodies of zero-size runners and closers.
 func ZeroRun(typeName string) error   { return zeroHandle(typeName).OnRun(nil) }
 func ZeroClose(typeName string) error { return zeroHandle(typeName).OnClose(nil) }
+
+// Bases of function-local component types ("Local" types cannot declare methods of their own).
+type LocalBase struct{ Sim *Handle }
+
+func (b *LocalBase) Naming() string { return b.Sim.Alias }
+
+// LocalCloser makes a function-local type a closer.
+type LocalCloser struct{ LocalBase }
+
+func (c *LocalCloser) Close() error { return c.Sim.OnClose(nil) }
+
+// LocalRunner makes a function-local type an application runner.
+type LocalRunner struct{ LocalBase }
+
+func (c *LocalRunner) Run() error { return c.Sim.OnRun(nil) }
